@@ -356,7 +356,7 @@ def ref_rdata(buf: bytes, off: int, ln: int, ty: int, info=None) -> bytes:
     out, pos, end = b"", off, off + ln
     for f in RFC_LAYOUT[ty]:
         if f == "N":
-            labels, n = ref_name(buf, pos, info)
+            labels, n = ref_name(buf, pos, None if (info is not None and info.get("owner_only")) else info)
             if pos + n > end: raise RefError("name exceeds record data")
             out += wire_name(labels); pos += n
         else:
@@ -433,3 +433,31 @@ def deliverable(buf: bytes) -> bool:
     except RefError:
         return False
     return (all(_HOSTLABEL.match(l) and ACE not in l for l in info["labels"]) and info["hops"] <= 100 and info["rdata"] <= 65535)
+
+
+def hops_twin(buf: bytes, off: int, memo: dict) -> int:
+    """twin of Lemmas/C26Live.lean `hops`: pointer hops of the specification's walk from off (0 where it does not walk)"""
+    if off in memo: return memo[off]
+    try:
+        _, _, ptr = ref_labels(buf, off)
+    except RefError:
+        ptr = None
+    r = 1 + hops_twin(buf, ptr, memo) if (ptr is not None and ptr < off) else 0
+    memo[off] = r
+    return r
+
+
+def live_twin(buf: bytes) -> bool:
+    """twin of Lemmas/C26Live.lean `liveCheck`: the specification reads the message, owner/question labels are plain
+    (ASCII, no dot, no xn--), canonical record data fits 16 bits, no pointer chain of the buffer is deeper than 127"""
+    info = {"labels": [], "hops": 0, "rdata": 0, "owner_only": True}
+    try:
+        ref_decode(buf, info)
+    except RefError:
+        return False
+    if not all(is_ascii(l) and ACE not in l and b"." not in l for l in info["labels"]): return False
+    if info["rdata"] > 65535: return False
+    import sys
+    sys.setrecursionlimit(max(sys.getrecursionlimit(), 40000))
+    memo = {}
+    return all(hops_twin(buf, off, memo) <= 127 for off in range(len(buf)))
